@@ -324,3 +324,24 @@ pub fn gen_c18(rng: &mut Rng, thorough: bool, out: &mut Cases) {
         push(&a, out);
     }
 }
+
+/// C10 op 33: streams as for the readers, scanned by collect_statistics
+pub fn gen_scan(rng: &mut Rng, n: usize, out: &mut Cases) {
+    for i in 0..n {
+        let (sh, bytes, bounds) = gen_stream(rng, i);
+        let storage = if sh { 16 } else { 0 };
+        let b = if i % 3 == 0 { bytes.clone() } else { mutate_stream(rng, sh, &bytes, &bounds) };
+        if b.len() > 4000 {
+            continue;
+        }
+        let sched = gen_schedule(rng, b.len(), &bounds, storage);
+        let mut w = W::new();
+        w.bool(if i % 17 == 0 { !sh } else { sh });
+        w.n(sched.len() as u128);
+        for k in &sched {
+            w.n(*k as u128);
+        }
+        w.b(&b);
+        out.push(33, w);
+    }
+}
